@@ -7,8 +7,8 @@ MUTANTS = [
     ("not-sorted", F, "sorted(decay_models, key=len, reverse=True)", "sorted(decay_models, key=len)", "C06.1"),
     ("unsorted", F, "for dm in sorted(decay_models, key=len, reverse=True)", "for dm in decay_models", "C06.1"),
     ("labels-through", F, "        if t.value not in self.define_defs:\n            raise ValueError(", "        if t.value not in self.define_defs and len(t.value) < 2:\n            raise ValueError(", "C06.5"),
-    ("labels-returned", [F, F], ["        return self.define_defs[t.value]\n", "        if t.value not in self.define_defs:\n            raise ValueError("],
-     ["        return self.define_defs.get(t.value, [t])\n", "        if t.value not in self.define_defs:\n            warnings.warn("], "C06.5"),
+    ("labels-returned", [F, F], ["        return copy.deepcopy(self.define_defs[t.value])\n", "        if t.value not in self.define_defs:\n            raise ValueError("],
+     ["        return copy.deepcopy(self.define_defs.get(t.value, [t]))\n", "        if t.value not in self.define_defs:\n            warnings.warn("], "C06.5"),
     ("no-boundary", G, 'MODEL_NAME.2 : "MODEL_NAME_PLACEHOLDER"/\\b/', 'MODEL_NAME.2 : "MODEL_NAME_PLACEHOLDER"', "C06.2"),
     ("no-priority", G, 'MODEL_NAME.2 : "MODEL_NAME_PLACEHOLDER"/\\b/', 'MODEL_NAME : "MODEL_NAME_PLACEHOLDER"/\\b/', "C06.2"),
     ("dash-extension-name", E, '    "BaryonPCR",\n', '    "BaryonPCR",\n    "BaryonPCR-X",\n', "C06.3"),
